@@ -1397,3 +1397,16 @@ func unaliasDeep(t types.Type) types.Type {
 // SetMem lets a call hook model a callee's write to abstract memory (the cell
 // named by its access path).
 func (it *Interp) SetMem(key string, v AV) { it.mem[key] = v }
+
+// MemWithPrefix returns the abstract memory cells whose key starts with prefix
+// (for call hooks that model a callee reading a local container, such as
+// errors.Join over a slice of collected errors).
+func (it *Interp) MemWithPrefix(prefix string) map[string]AV {
+	out := map[string]AV{}
+	for k, v := range it.mem {
+		if strings.HasPrefix(k, prefix) {
+			out[k] = v
+		}
+	}
+	return out
+}
